@@ -22,7 +22,8 @@ N_RUNS = {"quick": 48, "thorough": 3200}
 SHARD_TIMEOUT = {"quick": 90, "thorough": 120}
 RULE = (
     "each run is a fresh process tree under a pty: 1..8 threads x 0..3 child processes (x grandchildren) created "
-    "as Process(target=...) or as a Process subclass overriding run(), started with fork / spawn / forkserver at random moments while the other threads hammer lock_tty-decorated probes "
+    "as Process(target=...), as a Process subclass overriding run(), through a context's own Process class, or with a "
+    "target that imports the library only once it runs, started with fork / spawn / forkserver at random moments while the other threads hammer lock_tty-decorated probes "
     "(nesting depth 0..2, random hold times) and id-echoing terminal queries; delays are injected in the lock "
     "hand-over window (around mp_RLock / Array creation) and at line level inside lock_tty_wrapper / "
     "_process_start_wrapper / _process_run_wrapper; every probe logs [enter, exit] stamps taken inside its body "
@@ -57,7 +58,7 @@ def plan(tier, seed):
             delays=rnd.random() < 0.7,
             line_yields=rnd.random() < 0.6,
             concurrent_starts=rnd.random() < 0.5,
-            subclass=rnd.random() < 0.35,
+            create=rnd.choice(["target", "target", "subclass", "context", "lazy"]),
         )
         cfg["expect_procs"] = 1 + cfg["children"] * (1 + cfg["grandchildren"]) if rnd.random() < 0.75 else 0
         shards.append(dict(persona="other", persona_kw=dict(name="foot", version="1.16.2", xtversion=True), seed=seed, index=i, cfg=cfg, winsize=[80, 24, 640, 384]))
@@ -236,7 +237,7 @@ def run_shard(shard, env):
         res.count("processes observed", len({w[0][0] for w in intervals}))
         res.count("threads observed", len({w[0] for w in intervals}))
         res.count("start method " + cfg["method"])
-        res.count("processes created as " + ("a Process subclass overriding run()" if cfg.get("subclass") else "Process(target=...)"))
+        res.count("processes created as " + {"subclass": "a Process subclass overriding run()", "context": "get_context(method).Process(target=...)", "lazy": "Process(target=<function of a module that imports the library only when called>)"}.get(cfg.get("create"), "Process(target=...)"))
         # which processes were really at work at the same time (spans of the rendezvous phase)
         spans = {}
         for who, t0, t1, tag in intervals:
